@@ -129,8 +129,8 @@ P("C12", ["CONST", "BIND", "ARGNAME", "DIRECTION", "OFFER", "STEPINIT", "BFGSFOR
   "selects the first-iteration policy is the same in a retained state and in a run stopped there.",
   "iterate-by-iterate agreement with the Fortran reference in floating point; the subspace solve; SciPy's dcsrch",
   design="3/C12")
-P("C13", ["FILT", "SEED", "FLOW", "MEM", "FILTERWALK", "DOWNHILL", "STEPINIT", "SIB", "BFGSFORM", "SF2"],
-  "(BFGSFORM) after the objective is redefined the matrices are rebuilt from the rewritten history; (SF2) the wrapper remembers one point only and forgets it on every move, so no value of the old objective is served at another point; (SIB) the pairs carried by states and results are differences of the histories as they are at the construction (not of a copy taken before the rewrite); (STEPINIT) the line search starts from the caller's (possibly redefined) f0, not from a value memoised by the wrapper; (FILT) must-pass-through with path-correlation pruning: from every call of the user's update function every "
+P("C13", ["FILT", "SEED", "FLOW", "MEM", "FILTERWALK", "DOWNHILL", "STEPINIT", "SIB", "BFGSFORM", "SF2", "ANCHOR"],
+  "(ANCHOR) every normal path through the per-iteration memory update stores the new point, so that the newest point is always retained -- also when a rewritten gradient sequence makes the newest pair fail the curvature test; (BFGSFORM) after the objective is redefined the matrices are rebuilt from the rewritten history; (SF2) the wrapper remembers one point only and forgets it on every move, so no value of the old objective is served at another point; (SIB) the pairs carried by states and results are differences of the histories as they are at the construction (not of a copy taken before the rewrite); (STEPINIT) the line search starts from the caller's (possibly redefined) f0, not from a value memoised by the wrapper; (FILT) must-pass-through with path-correlation pruning: from every call of the user's update function every "
   "path to a consumer of G (matrix update, callback state, returned result) passes the curvature filter whose "
   "result rebinds X, G; (SEED) the filter seeds its output with the newest element and only grows on the left; "
   "(FLOW) argument / target order of both calls; (MEM) the filter's insertions are guarded by the curvature test "
